@@ -1,6 +1,7 @@
 //! Shared helpers for the correspondence / falsifier binaries (one bin per property).
 pub mod prng;
 pub mod refmath;
+pub mod toy;
 
 use std::fmt::Write as _;
 
